@@ -165,7 +165,7 @@ class Check:
         rc, out = sh(f"{VERIF}/bin/build_model.sh", timeout=900)
         return rc == 0, out[-2000:]
 
-    def run_harness(self, cmd, n, tag, extra="", timeout=1500, seed=None):
+    def run_harness(self, cmd, n, tag, extra="", timeout=1500, seed=None, race=False):
         """Runs vharness <cmd>; returns (stats dict or None, cases path, raw output)."""
         cases = f"{WORK}/{self.pid}_{tag}.txt"
         stats = f"{WORK}/{self.pid}_{tag}.json"
@@ -173,7 +173,8 @@ class Check:
             if os.path.exists(p):
                 os.remove(p)
         s = self.seed if seed is None else seed
-        rc, out = sh(f"timeout {timeout} {VERIF}/harness/bin/vharness {cmd} -seed {s} -n {n} -out {cases} -stats {stats} {extra}",
+        binary = "vharness-race" if race else "vharness"
+        rc, out = sh(f"timeout {timeout} {VERIF}/harness/bin/{binary} {cmd} -seed {s} -n {n} -out {cases} -stats {stats} {extra}",
                      timeout=timeout + 30)
         if rc != 0 or not os.path.exists(stats):
             return None, cases, f"rc={rc}\n" + out[-3000:]
